@@ -800,7 +800,6 @@ func configValue(fn *ssa.Function, v ssa.Value, depth int) bool {
 	return false
 }
 
-
 // faithfulMapCopy: dst is a map built in this function (or maps.Clone(src)) that receives, for every iteration over src on
 // this path, exactly the iteration's key and value — a copy entry by entry, nothing re-keyed, wrapped or left out.
 func faithfulMapCopy(s Summary, dst, src *Term) bool {
